@@ -235,8 +235,10 @@ def build_modular(case, inline=False):
     base_kind = {'dt_off': 'dt_off', 'dt_on': 'dt_on', 'dt_on_past': 'dt_on', 'ct_off': 'ct_off', 'ct_on': 'ct_on'}[kind]
     # interface-aware semantics and io declarations of the variables (C06 lane modular); the combined classes carry them
     ia = {}
+    if case.get('unit'):
+        ia['unit'] = case['unit']          # default unit of the specification (C10 histories that change it)
     if case.get('sem'):
-        ia = dict(semantics=case['sem'], io_types={v: t for v, t in (case.get('io') or {}).items() if t and v in used})
+        ia.update(semantics=case['sem'], io_types={v: t for v, t in (case.get('io') or {}).items() if t and v in used})
         base_kind = base_kind[:2]
     if inline:
         return build(base_kind, 'out = ' + pr(f), used, pastify=(kind == 'dt_on_past'), **ia)
